@@ -36,7 +36,7 @@ def parse_log(log):
         name = parts[i].split('::')[-1]
         body = parts[i + 1]
         r = {'status': 'unknown', 'time': None, 'failed': [], 'checks': 0, 'cover_sat': 0, 'cover_unsat': 0, 'ignored_side_checks': 0}
-        for m in re.finditer(r'Check \d+: (\S+)\n\s*- Status: (\w+)\n\s*- Description: "(.*)"\n(?:\s*- Location: (.*)\n)?', body):
+        for m in re.finditer(r'Check \d+: (.+)\n\s*- Status: (\w+)\n\s*- Description: "(.*)"\n(?:\s*- Location: (.*)\n)?', body):
             cid, status, desc, loc = m.groups()
             r['checks'] += 1
             if '.cover.' in cid:
@@ -61,7 +61,7 @@ def parse_log(log):
     return res, txt
 
 
-def run_harnesses(spec, timeout=2400, mem_gb=14, procs=16):
+def run_harnesses(spec, timeout=2400, mem_gb=40, procs=16):
     """spec: list of (where, harness); returns {harness: result dict}"""
     groups = {}
     ext = [h for w, h in spec if w == 'ext']
